@@ -58,7 +58,7 @@ def recorded(chk, n, only):
                       dict(family="chainrec", seed=chk.seed, n=n, line=bad))
 
 
-LIBS = ["FH", "FM", "BN", "BB", "BO", "TF", "TI"]
+LIBS = ["FH", "FM", "BN", "BB", "BO", "TF", "TI", "NC", "TX"]
 
 
 def library(chk, only, maxn=3, extra=("N",), hooks=("none",), kinds=("route", "notfound")):
